@@ -1,5 +1,8 @@
 use vmon::report::{Params, Report};
 
+#[global_allocator]
+static GLOBAL: vmon::c03::CountingAlloc = vmon::c03::CountingAlloc;
+
 fn usage() -> ! {
     eprintln!("usage: vmon <prop> [--seed N] [--shard I] [--of N] [--tier quick|thorough] [--cases N] [--secs S] --out FILE [--replay FILE] [key=value|flag ...]");
     std::process::exit(2)
@@ -47,6 +50,7 @@ fn main() {
     let rep: Report = match prop.as_str() {
         "c01" => vmon::c01::run(&p),
         "c02" => vmon::c02::run(&p),
+        "c03" => vmon::c03::run(&p),
         "c04" => vmon::c04::run(&p),
         "c05" => vmon::lc::run_c05(&p),
         "c06" => vmon::c06::run(&p),
